@@ -265,30 +265,51 @@ theorem shift_lf {α} (g : α → Bytes) (xs : List α) :
     rw [ih]
     simp
 
-/-- `featureText` of a feature whose key fits and whose rows all have a name -/
+/-- `featureText` (column 21) of a feature whose key fits and whose rows all have a name -/
 theorem featureText_lines (reg : Registry) (f : QFeature) (h1 : f.key.length ≤ 16) (h2 : propsOk f.props = true) :
-    ∃ t, featureText reg f = .ok t ∧ t ++ [10] = featLines reg f := by
-  refine ⟨_, by simp only [featureText, show ¬ f.key.length > 16 by omega, if_false, h2]; rfl, ?_⟩
+    ∃ t, featureText reg 21 f = .ok t ∧ t ++ [10] = featLines reg f := by
+  refine ⟨_, by simp only [featureText, h2]; rfl, ?_⟩
   have := shift_lf (fun kv : Bytes × Bytes => qualifierFmt reg (sp 21) kv.1 kv.2) (propsItems f.props)
-  simp only [featLines, keylineText, qualLines, List.append_assoc]
+  have e : 21 - 5 - f.key.length = 16 - f.key.length := by omega
+  simp only [featLines, keylineText, qualLines, List.append_assoc, e]
   rw [this]
 
-theorem tableText_lines (reg : Registry) (ft : QFeature) (fs : List QFeature)
+theorem tableTextD_lines (reg : Registry) (ft : QFeature) (fs : List QFeature)
     (h : ∀ f ∈ ft :: fs, f.key.length ≤ 16 ∧ propsOk f.props = true) :
-    ∃ t, tableText reg (ft :: fs) = .ok t ∧ t ++ [10] = featsText reg (ft :: fs) := by
+    ∃ t, tableTextD reg 21 (ft :: fs) = .ok t ∧ t ++ [10] = featsText reg (ft :: fs) := by
   induction fs generalizing ft with
   | nil =>
     obtain ⟨h1, h2⟩ := h ft (by simp)
     obtain ⟨t, ht, e⟩ := featureText_lines reg ft h1 h2
-    exact ⟨t, by simp [tableText, ht], by simp [featsText, e]⟩
+    exact ⟨t, by simp [tableTextD, ht], by simp [featsText, e]⟩
   | cons f2 fs ih =>
     obtain ⟨h1, h2⟩ := h ft (by simp)
     obtain ⟨t, ht, e⟩ := featureText_lines reg ft h1 h2
     obtain ⟨t', ht', e'⟩ := ih f2 (fun x hx => h x (by simp [hx]))
     refine ⟨t ++ 10 :: t', ?_, ?_⟩
-    · simp only [tableText, ht, ht']; rfl
+    · simp only [tableTextD, ht, ht']; rfl
     · simp only [featsText, List.flatMap_cons] at e' ⊢
       rw [← e, ← e']; simp
+
+/-- keys of at most 15 bytes leave the location column at 21 -/
+theorem tableDepth_small (fs : List QFeature) (h : ∀ f ∈ fs, f.key.length ≤ 15) : tableDepth fs = 21 := by
+  unfold tableDepth
+  suffices hs : ∀ d, d = 21 → fs.foldl (fun d f => max d (5 + f.key.length + 1)) d = 21 from hs 21 rfl
+  induction fs with
+  | nil => intro d hd; simpa using hd
+  | cons f fs ih =>
+    intro d hd
+    have := h f (by simp)
+    simp only [List.foldl_cons]
+    apply ih (fun x hx => h x (by simp [hx]))
+    omega
+
+theorem tableText_lines (reg : Registry) (ft : QFeature) (fs : List QFeature)
+    (h : ∀ f ∈ ft :: fs, f.key.length ≤ 15 ∧ propsOk f.props = true) :
+    ∃ t, tableText reg (ft :: fs) = .ok t ∧ t ++ [10] = featsText reg (ft :: fs) := by
+  unfold tableText
+  rw [tableDepth_small _ (fun f hf => (h f hf).1)]
+  exact tableTextD_lines reg ft fs (fun f hf => ⟨by have := (h f hf).1; omega, (h f hf).2⟩)
 
 /-- rows with a name (needed by `Props.Keys`) follow from the key being legal and every item
 being writable only for non-empty rows; stated separately -/
@@ -306,11 +327,11 @@ theorem features_roundtrip (reg : Registry) (ft : QFeature) (fs : List QFeature)
       featuresField reg ⟨bs "FEATURES             Location/Qualifiers\n" ++ (t ++ 10 :: rest), stk⟩ =
         (.ok ((ft :: fs).map (readFeature reg), learnTable reg (ft :: fs)), ⟨rest, []⟩) := by
   simp only [tableWritable, List.all_eq_true, Bool.and_eq_true] at hw
-  have hk : ∀ f ∈ ft :: fs, f.key.length ≤ 16 ∧ propsOk f.props = true := by
+  have hk : ∀ f ∈ ft :: fs, f.key.length ≤ 15 ∧ propsOk f.props = true := by
     intro f hf
     obtain ⟨h1, h2⟩ := hw f hf
     simp only [featOk, keyOk, Bool.and_eq_true, decide_eq_true_eq] at h1
-    exact ⟨by omega, h2⟩
+    exact ⟨h1.1.2, h2⟩
   obtain ⟨t, ht, e⟩ := tableText_lines reg ft fs hk
   refine ⟨t, ht, ?_⟩
   have e2 : t ++ 10 :: rest = featsText reg (ft :: fs) ++ rest := by
